@@ -88,6 +88,12 @@ def run(ctx):
                 integral = np.abs(ch - np.round(ch.real)).max() < 1e-7
                 ev.append(dict(op='irreps', kind=kind, n=n, T=T1, dims=dims, chars=[li(np.round(r.real)) for r in ch] if integral else []))
                 meta.append((kind, n))
+                ch2, class_list, table = G.get_character_and_class(irr)
+                ev.append(dict(op='classes', kind=kind, n=n, T=T1, classes=[[int(x) + 1 for x in c] for c in class_list]))
+                meta.append((kind, n))
+                if core.gt(np.abs(np.asarray(ch2) - ch).max(), 1e-9) or np.asarray(table).shape != (len(irr), len(class_list)) or \
+                        core.gt(np.abs(np.asarray(table) - ch[:, [c[0] for c in class_list]]).max(), 1e-9):
+                    ctx.violation('C14:get_character_and_class:table', 'characters are not the traces of the irreducible blocks / table columns are not class representatives', dict(kind=kind, n=n))
         except Exception as ex:
             ctx.violation('C14:exception:%s' % kind, type(ex).__name__ + ': ' + str(ex)[:160], dict(kind=kind, n=n))
     for N in range(1, 61):
@@ -153,6 +159,8 @@ def run(ctx):
             ctx.violation('C14:cayley-table:%s' % e['kind'], 'table is not a group table of the named group / left-regular form is not a faithful homomorphism (%s %s)' % (e['kind'], e['n']), dict(kind=e['kind'], n=e['n'], T=e['T']))
         elif e['op'] == 'irreps':
             ctx.violation('C14:reduce_group_representation:%s' % e['kind'], 'irreducible blocks: dimensions / count / integer characters rejected (%s %s)' % (e['kind'], e['n']), dict(kind=e['kind'], n=e['n'], dims=e['dims'], chars=e['chars']))
+        elif e['op'] == 'classes':
+            ctx.violation('C14:get_character_and_class:classes', 'reported conjugacy classes differ from the classes of the Cayley table (%s %s)' % (e['kind'], e['n']), dict(kind=e['kind'], n=e['n'], classes=e['classes']))
         elif e['op'] == 'pcount':
             ctx.violation('C14:get_sym_group_num_irrep:count', 'number of irreps of S_N differs from p(N)', dict(N=e['N'], got=e['p']))
         elif e['op'] == 'partitions':
